@@ -457,6 +457,16 @@ var specC09Scalars = Register(&Spec[ScalarsCase]{
 		if err := control.Unmarshal(&fout, strings.NewReader(ftext)); err != nil || !strSliceEq(fout.Lines, fin.Lines) || len(fout.Nums) != 2 || fout.Nums[1] != c.Num || fout.Count != 5 || !fout.Flag {
 			return errf("folded members without a strip tag: %+v written as %q reads back as %+v (err %v)", fin, ftext, fout, err)
 		}
+		// ... and through the paragraph-level pair: what ConvertToParagraph makes of the folded
+		// members, UnpackFromParagraph reads back (the multiline layout newline is layout there too)
+		if fp, err := control.ConvertToParagraph(&fin); err != nil {
+			return errf("ConvertToParagraph(%+v): %v", fin, err)
+		} else {
+			var viaP probeFolded
+			if err := control.UnpackFromParagraph(*fp, &viaP); err != nil || !strSliceEq(viaP.Lines, fin.Lines) || len(viaP.Nums) != 2 || viaP.Nums[0] != 1 || viaP.Nums[1] != c.Num || viaP.Count != 5 || !viaP.Flag {
+				return errf("folded members without a strip tag: ConvertToParagraph(%+v) = %q, which UnpackFromParagraph reads as %+v (err %v)", fin, fp.Values, viaP, err)
+			}
+		}
 		// a slice of pointers goes out the way it came in
 		ptrs := []*probeEmb{{ProbeCommon: ProbeCommon{Origin: "o1"}, probeCommonLower: probeCommonLower{Vendor: "v"}}, {ProbeCommon: ProbeCommon{Origin: "o2"}, probeCommonLower: probeCommonLower{Vendor: "v"}}}
 		if ptext, err := marshalToText(ptrs); err != nil {
